@@ -17,9 +17,16 @@
        produced if and only if no two items of one state ask for different actions on the same
        lookahead (C04_table_exactly_when_conflict_free): generate accepts exactly the grammars
        whose LALR(1) automaton (least-fixpoint sense) is conflict-free.
-   NOT proved: that this least-fixpoint LALR(1) automaton coincides with the textbook one defined
-   from canonical LR(1) item sets merged by core.
-   Decided per grammar by the check against a brute-force canonical-LR(1)-then-merge reference. *)
+     - (textbook definition) that automaton IS the merge by core of the canonical LR(1) item
+       sets, for every validated file, accepted or rejected
+       (C04_automaton_is_the_merge_of_the_canonical_LR1_sets, Build/CanonMachine.v): the items of
+       a state are exactly the union of the canonical sets I(g) over the viable prefixes g leading
+       to it, each I(g) has exactly the state's core, distinct states have distinct cores, and the
+       FIRST map is exactly FIRST / nullable (Build/FirstLeast.v).  So "conflict_free" above is
+       "no LALR(1) conflict" in the textbook sense, and generate accepts exactly the LALR(1) grammars
+       (conflict = two items of a merged state demanding different actions on one lookahead).
+   The check still compares the verdict of every sampled grammar with a brute-force
+   canonical-LR(1)-then-merge reference. *)
 From Coq Require Import List.
 From Kiki Require Import Base.Ord Base.Chars Data LR.Driver LR.Grammar LR.Validate LR.ValidateProofs
   Build.Machine Build.Table Build.TableProofs.
@@ -35,6 +42,7 @@ Theorem C04_valid_tables_mean_unambiguous :
 Proof. exact @validated_unambiguous. Qed.
 
 From Coq Require Import Permutation.
+From Kiki Require Import Build.ClosureProofs Build.FirstLeast Build.CanonMachine.
 From Kiki Require Import Ast.VWF Build.FillProofs Build.TableSpec Build.MachineSpec Build.GenCorrect Build.NoPanic Emit.Parser Pipeline PipelineProofs.
 
 Theorem C04_accepted_grammars_are_unambiguous :
@@ -59,7 +67,20 @@ Proof.
   exact (table_iff_conflict_free v cx m hoa HV Hr Hs HM Hpa).
 Qed.
 
+Theorem C04_automaton_is_the_merge_of_the_canonical_LR1_sets : forall hot fu v m,
+  (forall l, Permutation (hot l) l) -> validated_ast_to_machine hot fu v = Ok m ->
+  exists cx, cx_rules cx = get_rules v /\ cx_start cx = vf_start v /\
+    (forall n, (forall t, In t (fs_terminals (fm_get_or_empty (cx_first cx) n)) <-> fder (get_rules v) n t) /\
+               (fs_eps (fm_get_or_empty (cx_first cx) n) = true <-> nder (get_rules v) n)) /\
+    (forall k st it, nth_error (m_states m) k = Some st ->
+                     (In it st <-> exists g, npath m g k /\ nvalid1 cx g it)) /\
+    (forall g k, npath m g k -> forall st it, nth_error (m_states m) k = Some st -> In it st ->
+                 exists it', nvalid1 cx g it' /\ core_of it' = core_of it) /\
+    (forall i j si sj, nth_error (m_states m) i = Some si -> nth_error (m_states m) j = Some sj -> same_cores si sj -> i = j).
+Proof. exact machine_is_merged_canonical_LR1. Qed.
+
 Print Assumptions C04_error_means_conflict.
+Print Assumptions C04_automaton_is_the_merge_of_the_canonical_LR1_sets.
 Print Assumptions C04_table_exactly_when_conflict_free.
 Print Assumptions C04_valid_tables_mean_unambiguous.
 Print Assumptions C04_accepted_grammars_are_unambiguous.
